@@ -200,7 +200,7 @@ def table():
         W("MetadorGroup.__iter__", ("C08",), {"self": s}, result=bi("iter", call(at(s, "keys"))), clause="iteration goes over the filtered keys"),
         W("MetadorGroup.__reversed__", ("C08",), {"self": s}, result=bi("reversed", bi("list", call(at(s, "keys")))), clause="reverse iteration goes over the filtered keys too (wrapt would otherwise forward reversed() to the raw group, which lists the bookkeeping nodes — defect #27)"),
         W("MetadorGroup.__len__", ("C08",), {"self": s}, result=bi("len", bi("list", call(at(s, "keys")))), clause="the length counts the filtered keys only"),
-        W("MetadorNode.meta", ("C15", "C07"), {"self": s}, result=call(Tr(("global", "MetadorMeta")), s), bindings={"MetadorMeta": Tr(("global", "MetadorMeta"))}, clause="the metadata interface is bound to THIS wrapper (with its restrictions), not to the raw node"),
+        W("MetadorNode.meta", ("C15", "C07", "C06", "C08"), {"self": s}, result=call(Tr(("global", "MetadorMeta")), s), bindings={"MetadorMeta": Tr(("global", "MetadorMeta"))}, clause="the metadata interface is bound to THIS wrapper (with its restrictions), not to the raw node"),
         W("MetadorNode.metador", ("C15", "C07"), {"self": s}, result=call(Tr(("global", "WithDefaultQueryStartNode")), at(at(s, "_self_container"), "metador"), s), bindings={"WithDefaultQueryStartNode": Tr(("global", "WithDefaultQueryStartNode"))}, clause="the container interface reached from a node starts queries at THIS wrapper"),
         W("MetadorNode._destroy_meta", ("C06",), {"self": s, "_unlink": Tr(("arg", "_unlink"))}, result=None, clause="destroying the metadata of a node is MetadorMeta._destroy with the same unlink flag", result_pred=lambda cx, a, res: z3.BoolVal(res is None and [e[1] for e in cx.fx if e[0] == "call"] == [show(call(at(at(s, "meta"), "_destroy"), _unlink=Tr(("arg", "_unlink"))))])),
         W("MetadorNode.name", ("C08",), {"self": s}, result=at(at(s, "__wrapped__"), "name"), clause=""),
